@@ -31,6 +31,9 @@ def gen_cases(ctx, n_streams):
         [bytes.fromhex('0001'), b'', bytes.fromhex('00000002')],
         [],
     ]
+    for line in fc.load_corpus('C05', 'reader.txt'):
+        cases.append(fc.case_from_line(line))
+        tags.append(({'corpus'}, 'corpus'))
     for d in directed:
         for fin in ['eof', 'pending', 'err']:
             cases.append(('tcp', 'stop', fin, d))
@@ -60,6 +63,12 @@ def gen_client_cases(ctx, n):
         [([reply(0)[:7]], 'err'), ([reply(1)], 'pending'), ([exc(2)], 'pending')],
         [([reply(0)], 'eof'), ([reply(1)], 'eof')],
     ]
+    for line in fc.load_corpus('C05', 'client.txt'):
+        conns = []
+        for conn in line.split('/'):
+            parts = conn.split()
+            conns.append(([bytes.fromhex(x) for x in parts[1:]], parts[0]))
+        cases.append(conns)
     while len(cases) < n:
         conns = []
         for k in range(r.choice([1, 2, 2, 2, 3])):
